@@ -57,6 +57,8 @@ fn main() {
             "catalog" => g_catalog::gen(&mut rng, thorough, &mut em),
             "zone" => g_zone::gen(&mut rng, thorough, &mut em),
             "rrl" => g_rrl::gen(&mut rng, thorough, &mut em),
+            "rrlkey" => g_rrl::gen_group("rrlkey", &mut rng, thorough, &mut em),
+            "rrlburst" => g_rrl::gen_group("rrlburst", &mut rng, thorough, &mut em),
             "reader" => g_reader::gen(&mut rng, thorough, &mut em),
             "tsig" => g_tsig::gen(&mut rng, thorough, &mut em),
             "writer" => g_writer::gen(&mut rng, thorough, &mut em),
